@@ -76,11 +76,12 @@ def check_cartesian(ctx, KL, rng, max_nr):
     npp = int(2 * np.pi * nr)
     nmax = int(rng.integers(3, max(4, nr * npp // 15)))
     nmax = min(nmax, 40)
-    mask = bool(rng.random() < 0.7)
-    wit = {"ri": ri, "nr": nr, "nmax": nmax, "dim": dim, "mask": mask}
+    mask_arg = [True, True, 1, np.bool_(True), False, 0, np.bool_(False)][int(rng.integers(0, 7))]   # truthy / falsy in several types
+    mask = bool(mask_arg)
+    wit = {"ri": ri, "nr": nr, "nmax": nmax, "dim": dim, "mask": repr(mask_arg)}
     ctx.count("cartesian_renderings")
     ctx.case("make_kl", key=(ri, nr, nmax, dim, mask), nontrivial=True, sample=wit)
-    kl, var, pupil, base = quiet(KL.make_kl, nmax, dim, ri=ri, nr=nr, mask=mask)
+    kl, var, pupil, base = quiet(KL.make_kl, nmax, dim, ri=ri, nr=nr, mask=mask_arg)
     par = "odd" if dim % 2 else "even"
     if not ctx.check(np.shape(kl) == (nmax, dim, dim) and np.shape(pupil) == (dim, dim) and len(var) == nmax, "make_kl:shapes",
                      "shapes %s %s %s" % (np.shape(kl), np.shape(pupil), np.shape(var)), wit):
@@ -94,7 +95,8 @@ def check_cartesian(ctx, KL, rng, max_nr):
               "%d pixels of the returned pupil differ from [ri^2 <= x^2+y^2 <= 1]" % int(((pupil != ann) & ~amb).sum()), wit)
     if mask:
         out = ~ann & ~amb
-        ctx.check(bool(np.all(kl[:, out] == 0)), "make_kl:nonzero_outside_annulus:" + par, "a masked mode is non-zero outside the annulus", wit)
+        ctx.check(bool(np.all(kl[:, out] == 0)), "make_kl:nonzero_outside_annulus:" + par + (":mask_is_True" if mask_arg is True else ":mask_truthy"),
+                  "a masked mode (mask=%r) is non-zero outside the annulus" % (mask_arg,), wit)
     ctx.check(np.array_equal(np.asarray(var), np.asarray(base["evals"])), "make_kl:variances_not_the_polar_ones", "returned variances differ from the polar basis'", wit)
     # polar identities on make_kl's own polar basis (quadrature approximation: n_theta = floor(2 pi nr))
     Kf = check_polar(ctx, KL, base, 2e-3, "make_kl_grid", wit)
